@@ -46,6 +46,10 @@ def run(ctx):
     step_classes = {c.name for c in model.subclasses('PlanStep')}
     ctx.setcount('step_classes', len(step_classes))
 
+    # (0) a step container that is a default argument is one list for every plan of the process: sub-steps of one plan land in the steps of another (C20's rule,
+    # over the planner's files)
+    from . import C20
+    C20.check_mutable_defaults(ctx, [f for f in ctx.src.py_files('mindsdb_sql') if f.startswith(PLANNER)], 'C09.fresh-step-containers')
     # (1) result-mint --------------------------------------------------------------------------------------------
     mints = []
     for f in ctx.src.py_files('mindsdb_sql'):
